@@ -15,22 +15,22 @@ _SWEEP_RULE = ('HTTP sweep through the real api.NewRouter over the real system c
 
 PROPS['C38'] = dict(
     target='Props/C38',
-    theorems=['C38_total_partial', 'C38_v1_panic_exactly', 'C38_refuted_v1_vars', 'C38_no_effect', 'C38_rejected_before_store'],
+    theorems=['C38_total', 'C38_no_effect', 'C38_rejected_before_store'],
     ties=[dict(name='TIE-C apidec', vh='apidec', model='apidec', case_head='apidec', n=dict(quick=12000, thorough=400000), kinds=['C38']),
           dict(name='TIE-D httpsweep', vh='httpsweep', model=None, n=dict(quick=1500, thorough=40000), kinds=['C38'], case_head='http', replayable=False)],
     rule=_APIDEC_RULE + ' || ' + _SWEEP_RULE,
-    explanation='PARTIAL. Proved for every JSON tree: the v2 decoders (TransactionRequest + ToCore + Postings.Validate, ScriptV1.ToCore, bulk elements, metadata) never panic (C38_total_partial); a body rejected by the decoder '
-                'performs no store call and any non-success answer leaves all tables unchanged (C38_no_effect, C38_rejected_before_store, on top of the C07 frame theorem). REFUTED for v1 (C38_refuted_v1_vars, '
-                'C38_v1_panic_exactly): v1 Script.ToCore panics on a variable that is a JSON number/boolean/array -> HTTP 500 (known finding). The theorems cover the decoding layer only; chi routing, middlewares and '
-                'go-libs helpers are exercised by the sweep (status class, error envelope, ledger snapshot before/after), not modelled.',
+    explanation='Proved for every JSON tree: the v2 decoders (TransactionRequest + ToCore + Postings.Validate, ScriptV1.ToCore, bulk elements, metadata) AND the v1 Script decoder never panic (C38_total); a body rejected by '
+                'the decoder performs no store call and any non-success answer leaves all tables unchanged (C38_no_effect, C38_rejected_before_store, on top of the C07 frame theorem). The model follows the REPAIRED code: '
+                'before fixes/01 v1 Script.ToCore panicked on a variable that is a JSON number/boolean/array (refuted then; a tree without the repair breaks the apidec correspondence and is reported). The theorems cover '
+                'the decoding layer only; chi routing, middlewares, go-libs helpers, query-string/cursor/filter parsing are exercised by the sweep (status class, error envelope, ledger snapshot before/after), not modelled. '
+                'The sweep found eight classes of client input answered 5xx on the original tree; each has a one-commit repair under fixes/ (known_findings.d/api.json, status fixed) and is reported again if it comes back.',
     trusted=_API_TRUST,
-    technique='Coq proof (structural totality of the decoder models, composition with the controller step and the C07 frame theorem, vm_compute refutation witness) + differential run of the extracted decoder model against the real '
+    technique='Coq proof (structural totality of the decoder models, composition with the controller step and the C07 frame theorem) + differential run of the extracted decoder model against the real '
               'decoders under recover() + HTTP sweep through the real router on pgsem with status-class / envelope / snapshot monitors',
-    level_text='Unbounded theorems about the Gallina model of the request decoders (Ledger/Api.v): for every JSON tree the v2/bulk/metadata decoders return a request or a client error, never a panic; a rejected body makes no store call '
-               'and every non-success answer leaves the tables unchanged; v1 Script.ToCore panics exactly on non-string/non-object/non-null variables (refutation witness replayed: HTTP 500). Tied to the code by running model and real '
-               'decoders on mutated bodies, and by an HTTP sweep of every v1/v2 route (4xx never 5xx/panic, JSON error envelope, snapshot unchanged).',
+    level_text='Unbounded theorems about the Gallina model of the request decoders (Ledger/Api.v): for every JSON tree the v1, v2, bulk and metadata decoders return a request or a client error, never a panic; a rejected body makes no store call '
+               'and every non-success answer leaves the tables unchanged. Tied to the code by running model and real decoders on mutated bodies, and by an HTTP sweep of every v1/v2 route (4xx never 5xx/panic, JSON error envelope, snapshot unchanged).',
     level_note='Trusted: Coq kernel, extraction, OCaml glue (incl. the RFC 3339 instance of the abstract timestamp parser), Go harness, pgsem. The theorem covers the decoding layer; routing, middlewares, go-libs helpers, cursor/filter/query-string '
-               'parsing are exercised by the sweep, not modelled. Known findings: v1 script variables panic; malformed import stream -> 500.')
+               'parsing are exercised by the sweep, not modelled.')
 
 PROPS['C36'] = dict(
     target='Props/C36',
